@@ -270,12 +270,25 @@ pub fn run(ctx: &Ctx, rep: &mut Report) {
     }
     // (4) the shipped binary: `weechess evaluate --seed S --max-depth d --fen F`, two processes
     if let Some(bin) = &ctx.bin {
-        let k = if ctx.thorough() { 12 } else { 1 };
-        for _ in 0..k {
+        let k = if ctx.thorough() { 16 } else { 2 };
+        for i in 0..k {
             if !ctx.time_left() {
                 break;
             }
-            let p = c03::random_root(&mut rng, &corpus);
+            // every other pair starts from an early opening position (whatever the engine keeps for such positions
+            // - an opening book, say - must not make the answer depend on the process)
+            let p = if i % 2 == 1 {
+                let lines: [&[&str]; 10] = [&[], &["e2e4"], &["d2d4"], &["e2e4", "e7e5"], &["e2e4", "c7c5"], &["d2d4", "g8f6"], &["d2d4", "d7d5"], &["g1f3"], &["c2c4"], &["e2e4", "e7e5", "g1f3"]];
+                let mut q = Pos::start();
+                for l in lines[rng.gen_range(0..lines.len())] {
+                    let m = q.legal_moves().into_iter().find(|o| Pos::lan(o) == *l).expect("opening move");
+                    q = q.make(&m);
+                }
+                rep.count("cli_pairs_on_opening_positions", 1);
+                q
+            } else {
+                c03::random_root(&mut rng, &corpus)
+            };
             let depth = rng.gen_range(1..=3);
             let seed: u64 = rng.gen();
             if std::env::var("VERIF_TRACE").is_ok() {
